@@ -245,7 +245,7 @@ def check_step_substitution(chk, ix):
         chk.ok("B2", {"step_text_fields": textual}, nontrivial_key="step fields")
 
 
-def check_render_template(chk, ix):
+def check_render_template(chk, ix, tier="quick"):
     """B6: ScenarioOutlineBuilder.render_template on concrete texts (constant folding of str.replace)."""
     chk.rule("B6", WHAT["B6"])
     bc = ix.cls("behave.model:ScenarioOutlineBuilder")
@@ -254,6 +254,10 @@ def check_render_template(chk, ix):
     params = [("examples.name", "E1"), ("row.id", "1.2")]
     texts = ["<limit>", "x > <limit>", "idle -> <state>", "no placeholder", "a <unknown> b", "<limit> and <state>", "<<limit>>", "a > b",
              "<limit", "limit>", "", "<name>", "-- <examples.name>@<row.id> <limit>", "x<limit>y<limit>z", ">> <state> <<", "<state>>"]
+    # generated: every sequence of up to three pieces (thorough: all, quick: every 5th)
+    pieces = ["", "x ", "> ", "<", "<limit>", "<state>", " y", ">", "<name>", "<row.id>"]
+    gen = sorted({a + b + c for a in pieces for b in pieces for c in pieces} - set(texts))
+    texts = texts + (gen if tier == "thorough" else gen[::5])
 
     def oracle(t, with_params):
         for k, v in row + (params if with_params else []):
